@@ -131,6 +131,9 @@ fn reference_kinds(thorough: bool) -> Vec<Subject> {
         ("fault/variable-declared-only-in-another-program", vec![("Holder", "program", "PROGRAM Holder VAR zz : INT ; END_VAR zz := 1 ; END_PROGRAM")], ("C", "function", "FUNCTION C : INT VAR_INPUT a : INT ; END_VAR C := zz ; END_FUNCTION"), true),
         ("fault/constant-declared-only-in-another-function-block", vec![("Holder", "fb", "FUNCTION_BLOCK Holder VAR CONSTANT k : INT := 1 ; END_VAR VAR n : INT ; END_VAR n := k ; END_FUNCTION_BLOCK")], ("C", "fb", "FUNCTION_BLOCK C VAR n : INT ; END_VAR n := k ; END_FUNCTION_BLOCK"), true),
         ("fault/external-declared-only-in-another-function-block", vec![main, cfg, ("Holder", "fb", "FUNCTION_BLOCK Holder VAR_EXTERNAL CONSTANT G : INT ; END_VAR VAR n : INT ; END_VAR n := G ; END_FUNCTION_BLOCK")], ("C", "fb", "FUNCTION_BLOCK C VAR n : INT ; END_VAR n := G ; END_FUNCTION_BLOCK"), true),
+        // one global name in two configurations, constant in one of them only
+        ("fault/global-constant-in-one-of-two-configurations", vec![main, cfg, ("cfg2", "configuration", "CONFIGURATION cfg2 VAR_GLOBAL G : INT := 2 ; END_VAR RESOURCE res ON PLC PROGRAM p1 : Main ; END_RESOURCE END_CONFIGURATION")], ("C", "fb", "FUNCTION_BLOCK C VAR_EXTERNAL G : INT ; END_VAR VAR n : INT ; END_VAR n := G ; END_FUNCTION_BLOCK"), true),
+        ("fault/local-constant-with-the-name-of-an-external", vec![main, ("cfgp", "configuration", "CONFIGURATION cfgp VAR_GLOBAL G : INT := 2 ; END_VAR RESOURCE res ON PLC PROGRAM p1 : Main ; END_RESOURCE END_CONFIGURATION"), ("Holder", "fb", "FUNCTION_BLOCK Holder VAR CONSTANT G : INT := 1 ; END_VAR VAR n : INT ; END_VAR n := G ; END_FUNCTION_BLOCK")], ("C", "fb", "FUNCTION_BLOCK C VAR_EXTERNAL G : INT ; END_VAR VAR n : INT ; END_VAR n := G ; END_FUNCTION_BLOCK"), true),
         // the same declaration twice (each copy may be the whole content of its own file)
         ("fault/identical-function-block-twice", vec![("Twin", "fb", "FUNCTION_BLOCK Twin VAR n : INT ; END_VAR n := 1 ; END_FUNCTION_BLOCK")], ("Twin", "fb", "FUNCTION_BLOCK Twin VAR n : INT ; END_VAR n := 1 ; END_FUNCTION_BLOCK"), true),
         ("fault/identical-type-twice", vec![("Twin", "type", "TYPE Twin : ( A , B ) ; END_TYPE")], ("Twin", "type", "TYPE Twin : ( A , B ) ; END_TYPE"), true),
